@@ -19,8 +19,43 @@ def load_module(pid):
     return importlib.import_module('pvmon.checks.' + pid.lower())
 
 
+def reach_start():
+    """PVMON_REACH=<dir>: record which lines of the tree under test the workload of this worker executes (sys.monitoring LINE
+    events, each location disabled after its first hit, so the cost is negligible).  Evidence of reach, never a verdict."""
+    out = os.environ.get('PVMON_REACH')
+    if not out or not hasattr(sys, 'monitoring'):
+        return None
+    mon = sys.monitoring
+    tool = 4
+    try:
+        mon.use_tool_id(tool, 'pvmon-reach')
+    except ValueError:
+        return None
+    root = os.path.join(core.REPO, 'pyPRISM') + os.sep
+    seen = set()
+
+    def on_line(code, line):
+        fn = code.co_filename
+        if fn.startswith(root):
+            seen.add((fn[len(root):], line))
+        return mon.DISABLE
+    mon.register_callback(tool, mon.events.LINE, on_line)
+    mon.set_events(tool, mon.events.LINE)
+    return out, seen
+
+
+def reach_stop(state, tag):
+    if state is None:
+        return
+    out, seen = state
+    os.makedirs(out, exist_ok=True)
+    with open(os.path.join(out, '%s-%d.json' % (tag, os.getpid())), 'w') as f:
+        json.dump(sorted(seen), f)
+
+
 def worker(args):
     warnings.simplefilter('ignore')
+    reach = reach_start()
     module = load_module(args.id)
     budget = args.time_budget
     ctx = core.Ctx(module.PID, args.tier, args.seed, args.shard, args.nshards, replay=False, time_budget=budget)
@@ -34,6 +69,7 @@ def worker(args):
         module.finish(ctx)
     with open(args.partial, 'w') as f:
         json.dump(core.jsonable_case(ctx.partial()), f)
+    reach_stop(reach, args.id)
     return 0
 
 
